@@ -1,6 +1,61 @@
-"""B-wlists: written range and location lists (DESIGN.md 6 C16, appendix A.5, finding F9).
+"""B-wlists: written range and location lists (DESIGN.md 6 C16, appendix A.5, finding F9). Property C16 (write side of C08).
+Build = core.populate; wcore.populate; populate. All functions owned by C16.
 
-(header docstring completed at the end of the file's development - see DOC below)
+FUNCTIONS UNDER CONTRACT (real bodies, /repo/src/write/range.rs, loc.rs, section.rs, mod.rs)
+  RangeListTable::{write, write_ranges, write_rnglists}, LocationListTable::{write, write_loc, write_loclists},
+  loc.rs `write_expression`, RangeListOffsets/LocationListOffsets::{get, count}, RangeListId/LocationListId::new,
+  DebugRanges/DebugRngLists/DebugLoc/DebugLocLists::{offset, deref, deref_mut} (R-MACRO expansions of define_section!,
+  define_offsets!, define_id!).
+SPEC (vx/specs/wlists.rs + gen_spec below): ONE entry table ENTRIES for the four encodings; kind bytes and operand layouts
+  of DW_RLE_* / DW_LLE_* are read from the READER batch's tables (lists.RLE / lists.LLE; a mismatch is exit 2), the
+  DWARF 2-4 pair classification `pair_kind` is the reader's decision order ((0,0) end, first word all-ones = base
+  selection, else range), `cld_prefix` makes the reader's version split (2-byte / ULEB128 length).
+  <P>_<V>_upto(lists, i, j, ..) / <P>_<V>_len(..): the fields / bytes written after i complete lists and j entries of
+  list i (P = rng|loc, V = pair|rle|lle) - the per-LIST and per-ENTRY statement at once.
+TAGS (C16 unless noted)
+  pair-fields / coded-fields [+C18:list-address]  Ok ==> the field log grew by exactly <P>_<V>_upto(all lists): per entry
+        the words / kind byte + operands of the table, addresses through the relocatable write_address (WOp::Address),
+        offsets as wu() (pair) / Uleb (coded), base selection = (all-ones, address), terminator (0,0) / DW_*_end_of_list
+        after EVERY list; DWARF 5: the 7.28/7.29 header first and, last, the unit_length patch = bytes after the length field
+  pair-len / coded-len      exact section growth;   list-offsets  the returned offsets: offs()[i] = writer len at the start
+        of list i = start + <len>(lists, i, 0), base id = the table's;   offsets-get / offsets-count / section-offset
+  pair-base-state           ghost: `have_base_address` == unit state OR a BaseAddress entry earlier in THIS list (reset per list)
+  pair-reject-kind          every `return Err(InvalidRange|MissingBaseAddress|UnexpectedBaseAddress)` names a legitimate
+        reason of the validity table <P>_pair_rejects (written from the property statement, precedence-free)
+  pair-accept-only-valid, pair-reject-invalid   entries that are written are representable; Ok ==> every list is
+        <P>_pair_list_ok (OffsetPair needs a base, StartEnd/StartLength conflict with one, empty ranges, StartLength whose
+        end is not an address, DefaultLocation before v5)
+  pair-reads-as-range / pair-reads-as-base-select / pair-unambiguous   the pair written for an entry is classified by a
+        DWARF 2-4 consumer as what the entry is (never the terminator, the marker only for base selections).  FAILS: F-wlists-1
+  start-length-end          the end word of StartLength is begin + length mathematically.                          FAILS: F-wlists-2
+  counted-location, counted-location-too-large   length prefix == bytes Expression::write produced (2 bytes <= v4 /
+        ULEB128 v5); a DWARF 2-4 description longer than 0xffff bytes is an error
+  coded-need-v5, dispatch-empty / -pair / -coded / -unsupported-version   version 2-4 -> pair format in .debug_ranges/.debug_loc,
+        5 -> .debug_rnglists/.debug_loclists, anything else Err(UnsupportedVersion), empty table writes nothing; no other
+        section is touched
+  frame                     grew() on Ok and Err
+FINDINGS (exit 1 on the pinned tree; each reproduced natively, native/src/bin/f_wlists_<n>.rs; 8 obligations per pair writer)
+  F-wlists-1 (= DESIGN F9, extended)  write_ranges / write_loc, `assert(.._pair_reads_back(..))` [C16:pair-reads-as-range] in the
+      OffsetPair and StartEnd arms: a first word equal to the all-ones marker is emitted as it is.
+  F-wlists-2  write_ranges / write_loc StartLength arm: overflow obligations on `begin + length` and `addend + length as i64`
+      (debug panic) and [C16:start-length-end] (`length as i64` wraps for length >= 2^63: wrong end, no panic).
+  F-wlists-3  write_ranges / write_loc BaseAddress arm: three built-in obligations on `!0 >> (64 - address_size * 8)`:
+      an unvalidated Encoding.address_size (0, 9.., 32..) panics instead of Err(UnsupportedWordSize).
+  With the candidate fixes (size check first; reject marker-valued begin; checked end) the batch verifies with 0 errors.
+ASSUMED (TRUSTED beyond wcore's)
+  Expression::size, Expression::write  external_body (bodies = batch wop's subject): size() == spec_size, write() grows the
+      section by spec_size bytes and logs spec_fields (uninterpreted); wop proves this under Expression's own invariants
+      (refs_valid, targets_ok, isize bound), which are not restated here.
+  RangeListOffsets::none / LocationListOffsets::none  external_body: BaseId::default() is a process-wide atomic counter.
+REWRITES  R-MACRO (3 macros, mechanical), R-MAP `ranges/locations: FnvIndexSet<..>` -> `Vec<..>` (assumption: IndexSet::iter()
+  yields insertion order = id order), R-FIELDS (Expression.operations; Sections projected to the list sections),
+  R-DERIVE (list types: Debug only), type ascription on `let mut offsets` (insertion), `it1:/it2:` loop labels (insertion).
+NOT DECIDED  RangeListTable::add/get, LocationListTable::add/get (IndexSet de-duplication, "equal lists share one id");
+  `have_base_address` derivation in Unit::write (`.iter().any(closure)` inside a 100-line function) and the
+  RangeListRef/LocationListRef arms of AttributeValue::write (60-arm match over types outside this batch);
+  DWARF 5 validity: write_rnglists/write_loclists accept every list (OffsetPair with no base at all, empty ranges) - DWARF 5
+  entries are self-describing so nothing is ambiguous, but nothing is rejected either (observation, no clause);
+  that Address fields with a SYMBOLIC value do not relocate to 0 / all-ones; byte-level meaning of the fields (K-WPRIM, wreloc).
 """
 import textwrap
 from lib import *
@@ -12,7 +67,7 @@ MULTIPLE_ERRORS = 16     # the pre-v5 writers have several INDEPENDENT genuine d
 VERUS_ARGS = ['--rlimit', '60']
 RETRY_RLIMIT = 120
 
-TRUSTED = list(wcore.TRUSTED) + ['size', 'write']
+TRUSTED = list(wcore.TRUSTED) + ['size', 'write', 'none']
 
 
 # ------------------------------------------------------------------------------------------------------------------
@@ -305,7 +360,7 @@ def offsets_type(ctx, sk, mod, wmod, name, idname, offset):
     x = expand(ctx, wmod, 'define_offsets', {'offsets': name, 'id': idname, 'offset': offset})
     sk.add(mod, x.item(r'^pub struct %s \{' % name, label=name).clean())
     im = x.item(r'^impl %s \{' % name, label=name + '(impl)')
-    im.drop(['none'])
+    im.extbody(['none'])      # `BaseId::default()` draws a fresh id from a process-wide atomic counter: outside Verus
     im.clean()
     im.own(OWN)
     im.insert_members(f'    /// the recorded offsets, by list index; the table they belong to\n'
@@ -315,6 +370,7 @@ def offsets_type(ctx, sk, mod, wmod, name, idname, offset):
     im.splice('get', ret='res', requires=['self.bid() == id.bid()', 'id.idx() < self.offs().len()'],
               ensures=['[C16:offsets-get] res == self.offs()[id.idx() as int]'], canary=True)
     im.splice('count', ret='res', ensures=['[C16:offsets-count] res == self.offs().len()'])
+    im.splice('none', ret='res', ensures=['res.offs().len() == 0'])
     sk.add(mod, im)
 
 
@@ -455,7 +511,59 @@ def coded_writer(it, fn, loc):
             expr_call(it, k, W0)
 
 
-def populate(ctx, sk, locations=True):
+SECTION_FIELDS = ['debug_ranges', 'debug_rnglists', 'debug_loc', 'debug_loclists', 'debug_loc_fixups', 'debug_loclists_fixups']
+
+
+def sections_type(ctx, sk, sec):
+    """write::Sections projected (R-FIELDS) to the four list sections and their fixup vectors"""
+    sk.mods['write']['uses'] += '\npub use self::section::*;'
+    sk.module('write::section', 'use crate::write::{DebugInfoFixup, DebugLoc, DebugLocLists, DebugRanges, DebugRngLists, Writer};')
+    st = sec.item(r'^pub struct Sections<W: Writer> \{', label='Sections')
+    for f in ['pub debug_abbrev: DebugAbbrev<W>,', 'pub debug_info: DebugInfo<W>,', 'pub debug_line: DebugLine<W>,', 'pub debug_line_str: DebugLineStr<W>,',
+              'pub debug_str: DebugStr<W>,', 'pub debug_frame: DebugFrame<W>,', 'pub eh_frame: EhFrame<W>,', 'pub(crate) debug_info_fixups: Vec<DebugInfoFixup>,']:
+        st.custom('R-FIELDS', f, '')
+    for f in SECTION_FIELDS:
+        if not re.search(r'\b%s:' % f, st.text):
+            raise Lost(f'Sections: field {f}')
+    sk.add('write::section', st.clean())
+
+
+def dispatcher(it, loc):
+    """RangeListTable::write / LocationListTable::write: the encoding is chosen by the unit's version (DWARF 2-4: pair format in
+    .debug_ranges / .debug_loc; DWARF 5: .debug_rnglists / .debug_loclists); no other section is touched"""
+    P, V = ('loc', 'lle') if loc else ('rng', 'rle')
+    OT = 'LocationListOffsets' if loc else 'RangeListOffsets'
+    fld = 'locations' if loc else 'ranges'
+    old_s, new_s = ('debug_loc', 'debug_loclists') if loc else ('debug_ranges', 'debug_rnglists')
+    L = 'LocationList' if loc else 'RangeList'
+    it.insert_members(f'    /// the lists of the table in id order (ghost accessor for the pub(crate) contract)\n'
+                      f'    pub closed spec fn lists(&self) -> Seq<{L}> {{ self.{fld}@ }}')
+    LISTS = 'self.lists()'
+    N = f'{LISTS}.len() as int'
+    S = 'encoding.address_size'
+    X = ', encoding, unit_offsets' if loc else ''
+
+    def xs(sec):
+        return f', encoding, unit_offsets, old(sections).{sec}.0.wv().len' if loc else ''
+    O0, O1 = f'old(sections).{old_s}.0.wv()', f'final(sections).{old_s}.0.wv()'
+    N0, N1 = f'old(sections).{new_s}.0.wv()', f'final(sections).{new_s}.0.wv()'
+    others = lambda keep: ' && '.join(f'final(sections).{f} == old(sections).{f}' for f in SECTION_FIELDS
+                                      if f not in keep and not (loc and f.endswith('_fixups')))
+    HB = 'have_base_address'
+    it.splice('write', ret='res', ensures=[
+        f'[C16:dispatch-empty] {N} == 0 ==> (res matches Ok(o) && o.offs().len() == 0) && {others([])} && {O1} == {O0} && {N1} == {N0}',
+        f'[C16:dispatch-unsupported-version] {N} > 0 && !(2 <= encoding.version <= 5) ==> res == Err::<{OT}, Error>(Error::UnsupportedVersion(encoding.version)) '
+        f'&& {others([])} && {O1} == {O0} && {N1} == {N0}',
+        f'[C16:dispatch-pair] {N} > 0 && 2 <= encoding.version <= 4 ==> {others([old_s])} && (res matches Ok(o) ==> '
+        f'wrote({O0}, {O1}, {P}_pair_upto({LISTS}, {N}, 0, {S}{xs(old_s)})) && (forall|i: int| 0 <= i < {N} ==> {P}_pair_list_ok((#[trigger] {LISTS}[i]).0@, {HB})) '
+        f'&& o.offs().len() == {N} && (forall|i: int| 0 <= i < {N} ==> (#[trigger] o.offs()[i]).0 as nat == {O0}.len + {P}_pair_len({LISTS}, i, 0, {S}{X})))',
+        f'[C16:dispatch-coded] {N} > 0 && encoding.version == 5 ==> {others([new_s])} && (res matches Ok(o) ==> '
+        f'wrote({N0}, {N1}, {P}_{V}_upto({LISTS}, {N}, 0, {S}{xs(new_s)}, encoding).push(lists_length_patch(encoding, {N0}.len, {N1}.len))) '
+        f'&& o.offs().len() == {N} && (forall|i: int| 0 <= i < {N} ==> (#[trigger] o.offs()[i]).0 as nat == {N0}.len + {P}_{V}_len({LISTS}, i, 0, {S}{X}, encoding)))',
+    ])
+
+
+def populate(ctx, sk):
     wmod = wsource('write/mod.rs', ctx)
     sec = Source('write/section.rs', ctx)
     rng = Source('write/range.rs', ctx)
@@ -473,7 +581,7 @@ def populate(ctx, sk, locations=True):
     M = 'write::range'
     sk.module(M, '''use core::ops::{Deref, DerefMut};
 use crate::common::{Encoding, Format, RangeListsOffset, SectionId};
-use crate::write::{Address, BaseId, Error, Result, Writer};
+use crate::write::{Address, BaseId, Error, Result, Sections, Writer};
 use crate::vspec::*;
 use crate::wspec::*;
 use crate::wlspec::*;''')
@@ -495,14 +603,15 @@ use crate::wlspec::*;''')
     tb.custom('R-MAP', 'ranges: FnvIndexSet<RangeList>,', 'ranges: Vec<RangeList>,')
     sk.add(M, tb.clean())
     ti = rng.item(r'^impl RangeListTable \{', label='RangeListTable(impl)')
-    ti.keep_only(['write_ranges', 'write_rnglists'])
+    ti.keep_only(['write', 'write_ranges', 'write_rnglists'])
     ti.clean()
     ti.own(OWN)
     pair_writer(ti, 'write_ranges', False)
     coded_writer(ti, 'write_rnglists', False)
+    dispatcher(ti, False)
     sk.add(M, ti)
-    if locations:
-        populate_loc(ctx, sk, wmod, sec)
+    populate_loc(ctx, sk, wmod, sec)
+    sections_type(ctx, sk, sec)
     return sk
 
 
@@ -547,7 +656,7 @@ use crate::wspec::*;''')
     M = 'write::loc'
     sk.module(M, '''use core::ops::{Deref, DerefMut};
 use crate::common::{Encoding, Format, LocationListsOffset, SectionId};
-use crate::write::{Address, BaseId, DebugInfoFixup, Error, Expression, Result, UnitOffsets, Writer};
+use crate::write::{Address, BaseId, DebugInfoFixup, Error, Expression, Result, Sections, UnitOffsets, Writer};
 use crate::vspec::*;
 use crate::wspec::*;
 use crate::wlspec::*;''')
@@ -582,11 +691,12 @@ use crate::wlspec::*;''')
     tb.custom('R-MAP', 'locations: FnvIndexSet<LocationList>,', 'locations: Vec<LocationList>,')
     sk.add(M, tb.clean())
     ti = loc.item(r'^impl LocationListTable \{', label='LocationListTable(impl)')
-    ti.keep_only(['write_loc', 'write_loclists'])
+    ti.keep_only(['write', 'write_loc', 'write_loclists'])
     ti.clean()
     ti.own(OWN)
     pair_writer(ti, 'write_loc', True)
     coded_writer(ti, 'write_loclists', True)
+    dispatcher(ti, True)
     sk.add(M, ti)
 
 
